@@ -863,8 +863,10 @@ pub enum Mix {
 }
 
 fn key_strategy(hot: u16) -> BoxedStrategy<u16> {
-    // biased to the first one to three keys
-    prop_oneof![5 => 0u16..hot.min(3).max(1), 2 => 0u16..hot.max(1)].boxed()
+    // biased to the first one to three keys (the head of a crowded bin is key 0) and to the last two
+    // of the universe (in the crowded-bin shapes these are the keys that are not yet present)
+    let h = hot.max(1);
+    prop_oneof![5 => 0u16..h.min(3), 3 => h.saturating_sub(2)..h, 2 => 0u16..h].boxed()
 }
 
 pub fn cop_strategy(mix: Mix, hot: u16) -> BoxedStrategy<COp> {
